@@ -87,12 +87,16 @@ POOL = [
     # a call in which a PRODUCTION raises (reference time at the edge of the datetime range): it fails the same way every time and leaves nothing behind
     {"text": "tomorrow", "ts": "9999-12-31T12:00:00", "kw": {}},
     {"text": "tomorrow", "ts": TS1, "kw": {}},
+    # a caller-supplied naive-Bayes scorer with another model, on texts the default scorer also sees (what one model computed is not the other's)
+    {"text": "tomorrow 5pm", "ts": TS1, "kw": {"scorer": "nb2"}},
+    {"text": "9-5", "ts": TS1, "kw": {"scorer": "nb2"}},
+    {"text": "monday 5pm", "ts": TS1, "kw": {"scorer": "nb2"}},
 ]
 TS_COMPONENT = [23, 24, 25]
 SHIFT_PAIRS = [(13, 14), (15, 16), (17, 18), (19, 20), (21, 22)]
 FAIL = 7
-CALLABLE = list(range(13)) + [13, 14, 23, 24, 25, 27, 28, 29, 30, 31, 32, 33, 34, 35, 36, 37]  # history alphabet (the offset-shift pairs beyond #14 are exercised by the stream merges)
-OPENABLE = [0, 3, 5, 9, 10, 13]
+CALLABLE = list(range(13)) + [13, 14, 23, 24, 25, 27, 28, 29, 30, 31, 32, 33, 34, 35, 36, 37, 38, 39, 40]  # history alphabet (the offset-shift pairs beyond #14 are exercised by the stream merges)
+OPENABLE = [0, 3, 5, 9, 10, 13, 38]
 MERGE_POOL = [0, 1, 3, 4, 5, 8, 9, 10, 11, 12]
 SCHED_PAIRS_QUICK = [(9, 6, "one", "one"), (9, 9, "gen", "one")]
 SCHED_PAIRS_THOROUGH = SCHED_PAIRS_QUICK + [(9, 0, "one", "gen"), (9, 4, "one", "gen"), (0, 3, "one", "gen"), (4, 4, "gen", "gen"), (8, 0, "gen", "one")]
@@ -112,6 +116,15 @@ def _scorer(name):
 
         if name == "dummy":
             _scorers[name] = DummyScorer()
+        elif name == "nb2":
+            # a second naive-Bayes scorer with ANOTHER model (trained here on hand-written traces: no parse is needed to build it)
+            from ctparse.nb_scorer import train_naive_bayes
+
+            X = [["128"], ["128", "ruleHHMM"], ["112"], ["112", "ruleTomorrow"], ["112", "128", "ruleHHMM", "ruleTomorrow"], ["112", "128", "ruleHHMM", "ruleTomorrow", "ruleDateTOD"],
+                 ["128", "123", "128", "ruleHHMM"], ["128", "123", "128", "ruleHHMM", "ruleHHMM", "ruleTODTOD"], ["102", "ruleNamedDOW"], ["102", "ruleNamedDOW", "ruleLatentDOW"],
+                 ["102", "128", "ruleHHMM", "ruleNamedDOW", "ruleLatentDOW", "ruleDateTOD"], ["108", "ruleDOM1"], ["108", "ruleDOM1", "ruleLatentDOM"], ["124", "ruleDDMM", "ruleLatentDOY"]]
+            y = [False, True, True, False, False, True, True, False, True, False, False, True, True, False]
+            _scorers[name] = NaiveBayesScorer(train_naive_bayes(X, y))
         else:
             _scorers[name] = NaiveBayesScorer.from_model_file(os.path.join(runner.REPO, "ctparse", "models", "model.pbz"))
     return _scorers[name]
@@ -269,7 +282,7 @@ def plan(tier, seed):
     one, gen_ = isolated_reference()
     REF["order_dependent"] = [i for i in range(len(POOL)) if one[i] != REF["one"][i] or gen_[i] != REF["gen"][i]]
     REF["one"], REF["gen"] = one, gen_
-    _scorer("dummy"), _scorer("nb")  # built once before the workers fork (object construction only, no parse)
+    _scorer("dummy"), _scorer("nb"), _scorer("nb2")  # built once before the workers fork (object construction only, no parse)
     depth = 3 if tier == "quick" else 4
     if tier == "quick":
         # depth <= 2 over the full alphabet, depth 3 over a reduced one (every kind of collision still present)
